@@ -191,7 +191,7 @@ def _containers(ctx, P):
             outs = run()
             pristine = {"periodic": per, "fill_value": fv, "boundary": bnd, "default_shifts": {AX: {"center": "left"}},
                         "coords": {a: {"center": dimsym(a.name, "center"), "left": dimsym(a.name, "left")} for a in (AX, AY)}}
-            _judge(ctx, init, f"Grid(...) with {name}", outs, lambda o: {k: o.env.get(k) for k in pristine if k in o.env}, pristine, grid_may_change=True)
+            _judge(ctx, init, f"Grid(...) with {name}", outs, lambda o: {k: o.args.get(k) for k in pristine if k in o.args}, pristine, grid_may_change=True)
         except Unmodelled as e:
             ctx.unknown("R18.2", f"Grid(...) with {name}", str(e))
 
@@ -205,7 +205,7 @@ def _containers(ctx, P):
         outs = run_dispatch(P, "diff", {"AX": "center", "AY": "center"}, copy.deepcopy(to), axnames=("AX", "AY"), axis_arg=[AX, AY], metric_weighted=copy.deepcopy(mw), kwargs=copy.deepcopy(kws), other_component=oc)
         pristine = {"to": to, "metric_weighted": mw, "axis": [AX, AY], "other_component": oc}
         das = []
-        _judge(ctx, disp, "diff/interp dispatch with per-axis mappings", outs, lambda o: {**{k: o.env.get(k) for k in pristine if k in o.env}}, pristine, arg_objs=[make_da("da", [])])
+        _judge(ctx, disp, "diff/interp dispatch with per-axis mappings", outs, lambda o: {k: o.args.get(k) for k in pristine if k in o.args}, pristine, arg_objs=[make_da("da", [])])
     except Unmodelled as e:
         ctx.unknown("R18.2", "dispatch with per-axis mappings", str(e))
 
@@ -219,7 +219,7 @@ def _containers(ctx, P):
         da = make_da("da", [Sym("t"), dimsym("AX", "center")])
         outs = ev.run_paths(cfi, lambda: dict(self=make_grid(("AX", "AY")), da=da, axis=[AX], to=copy.deepcopy(to), boundary=copy.deepcopy(bnd), fill_value=copy.deepcopy(fv), metric_weighted=copy.deepcopy(mw), keep_coords=False))
         pristine = {"to": to, "boundary": bnd, "fill_value": fv, "metric_weighted": mw, "axis": [AX]}
-        _judge(ctx, cfi, "cumsum with per-axis mappings", outs, lambda o: {k: o.env.get(k) for k in pristine}, pristine, arg_objs=[da])
+        _judge(ctx, cfi, "cumsum with per-axis mappings", outs, lambda o: {k: o.args.get(k) for k in pristine if k in o.args}, pristine, arg_objs=[da])
     except Unmodelled as e:
         ctx.unknown("R18.2", "cumsum with per-axis mappings", str(e))
 
@@ -232,7 +232,7 @@ def _containers(ctx, P):
         outs = run_apply(P, "(X:left),(X:left)->(X:center)", copy.deepcopy(axis), args=lambda: ({AX: make_da("u1", [dimsym("AX", "left")])}, {AX: make_da("u2", [dimsym("AX", "left")])}),
                          boundary_width=copy.deepcopy(bw), other_component=copy.deepcopy(oc), boundary={AX: "fill"}, fill_value={AX: 0.0})
         pristine = {"boundary_width": bw, "axis": axis, "other_component": oc, "boundary": {AX: "fill"}, "fill_value": {AX: 0.0}}
-        _judge(ctx, app, "apply_as_grid_ufunc with vector inputs", outs, lambda o: {k: o.env.get(k) for k in pristine}, pristine)
+        _judge(ctx, app, "apply_as_grid_ufunc with vector inputs", outs, lambda o: {k: o.args.get(k) for k in pristine if k in o.args}, pristine)
     except Unmodelled as e:
         ctx.unknown("R18.2", "apply_as_grid_ufunc", str(e))
 
